@@ -6,7 +6,8 @@ SEEDS=${1:-"1 2 3"}
 TIER=${2:-quick}
 eval "$(python3 -c "import json;print('SETUP=' + repr(json.load(open('MANIFEST.json'))['setup_cmd']))")"
 bash -c "$SETUP" > /tmp/soak_setup.log 2>&1 || { echo SETUP FAILED; tail -5 /tmp/soak_setup.log; exit 2; }
-for p in $(python3 -c "import json;print(' '.join(c['property_id'] for c in json.load(open('MANIFEST.json'))['checks']))"); do
+# PROPS="C08 C14" restricts the run to those properties
+for p in ${PROPS:-$(python3 -c "import json;print(' '.join(c['property_id'] for c in json.load(open('MANIFEST.json'))['checks']))")}; do
   for s in $SEEDS; do
     out=$(VERIF_EVIDENCE_DIR=/tmp/soak_evidence VERIF_SEED=$s ./check $p --tier $TIER 2>&1)
     rc=$?
